@@ -83,6 +83,7 @@ type c09World struct {
 	askParked chan struct{}
 	askResume chan struct{}
 	askAnswer chan bool
+	slowUsed  bool
 }
 
 func (w *c09World) canon(uri string) string { return strings.TrimPrefix(uri, w.prefix) }
@@ -182,7 +183,14 @@ func (n *c09Neighbor) NeedsTable(ctx context.Context, uri string) (bool, error) 
 		return db.NeedsTable(uri), nil
 	case "slow":
 		// answers "yes", but only after longer than any deadline a caller might reasonably impose; a caller that gives
-		// up first gets its own context error
+		// up first gets its own context error (only the first call of a case is slow: cleanups run one after another)
+		n.w.mu.Lock()
+		first := !n.w.slowUsed
+		n.w.slowUsed = true
+		n.w.mu.Unlock()
+		if !first {
+			return true, nil
+		}
 		select {
 		case <-ctx.Done():
 			return false, ctx.Err()
@@ -474,6 +482,9 @@ func c09Guard(f func() string) (out string) {
 	defer func() {
 		if r := recover(); r != nil {
 			msg := fmt.Sprint(r)
+			if os.Getenv("VERIF_DEBUG") != "" {
+				fmt.Fprintf(os.Stderr, "panic: %v\n%s\n", r, debug.Stack())
+			}
 			if strings.Contains(msg, "retained checkpoints") {
 				out = "panic"
 			} else {
@@ -619,8 +630,53 @@ func runC09(c lib.Case) []string {
 				}
 			}
 			res := c09Guard(func() string {
+				if c09Field(f, "host") == "op" && w.store.location() != "" && len(handles) > 0 {
+					// a real operator.Operator deployed through HandleDeploy serves this instance
+					all := append([]partitioning.KeyGroupRange{{Start: lo, End: hi}}, ranges...)
+					sort.Slice(all, func(a, b int) bool { return all[a].Start < all[b].Start })
+					var nodes []*jobpb.NodeIdentity
+					for _, r := range all {
+						id := fmt.Sprintf("nb%d-%d", r.Start, r.End)
+						if r.Start == lo && r.End == hi {
+							id = fmt.Sprintf("i%d", idx)
+						}
+						nodes = append(nodes, &jobpb.NodeIdentity{Id: id, Host: id})
+					}
+					op := operator.NewOperator(operator.NewOperatorParams{ID: fmt.Sprintf("i%d", idx), Host: "h",
+						NeighborOperatorFactory: func(sender string, node *jobpb.NodeIdentity) proto.Operator {
+							a, b := c09ParseRange(strings.TrimPrefix(node.Id, "nb"))
+							return &c09Neighbor{w: w, gen: gen, r: partitioning.KeyGroupRange{Start: a, End: b}, asker: idx}
+						}})
+					req := &workerpb.DeployOperatorRequest{Operators: nodes, SourceRunnerIds: []string{"src"}, KeyGroupCount: 8,
+						StorageLocation: w.store.location()}
+					for _, wi := range fromWs {
+						req.Checkpoints = append(req.Checkpoints, &snapshotpb.OperatorCheckpoint{CheckpointId: fromID,
+							OperatorId: fmt.Sprintf("i%d", wi), DkvFileUri: w.prefix + fmt.Sprintf("i%d/checkpoints", wi)})
+						x.srcDocs = append(x.srcDocs, fmt.Sprintf("i%d/checkpoints", wi))
+					}
+					for _, t := range preTabs {
+						x.known[t] = true
+					}
+					w.mu.Lock()
+					x.op, x.deployReq = op, req
+					w.insts = append(w.insts, x)
+					w.mu.Unlock()
+					if err := op.HandleDeploy(context.Background(), req, nil); err != nil {
+						return "err " + strings.ReplaceAll(err.Error(), " ", "_")
+					}
+					w.mu.Lock()
+					x.db = op.VerifDB()
+					w.mu.Unlock()
+					if x.db == nil {
+						return "err no-db"
+					}
+					if err := x.db.WaitOnTasks(); err != nil {
+						return "err " + strings.ReplaceAll(err.Error(), " ", "_")
+					}
+					return ""
+				}
 				own := &c09Ownership{w: w, idx: idx, inner: operator.VerifNewOperatorPartitionWithNeighbors(partitioning.KeyGroupRange{Start: lo, End: hi}, ranges, ops)}
-				db := dkv.New(dkv.DBOptions{FileSystem: w.root.WithWorkingDir(fmt.Sprintf("i%d", idx)), MemTableSize: uint64(mem), TargetFileSize: 96,
+				db := dkv.New(dkv.DBOptions{FileSystem: w.store.instFS(fmt.Sprintf("i%d", idx)), MemTableSize: uint64(mem), TargetFileSize: 96,
 					L0TableNumCompactionTrigger: l0, DataOwnership: own})
 				comp := db.VerifCompactor()
 				comp.SmallestLevelSize = 1
@@ -649,7 +705,7 @@ func runC09(c lib.Case) []string {
 			})
 			if res != "" {
 				w.mu.Lock()
-				x.alive, x.db = false, nil
+				x.alive, x.db, x.op = false, nil, nil
 				if n := len(w.insts); n > 0 && w.insts[n-1] == x {
 					w.insts = w.insts[:n-1]
 				}
@@ -724,7 +780,8 @@ func runC09(c lib.Case) []string {
 			res := c09Guard(func() string {
 				for k := 0; k < n; k++ {
 					kg := r.Range(klo, khi)
-					key := []byte{byte(kg >> 8), byte(kg), byte(r.Intn(6)), byte(r.Intn(4))}
+					// key group, the schema byte of keyed state (an operator's timer store scans the timer schema), suffix
+					key := []byte{byte(kg >> 8), byte(kg), 0x00, byte(r.Intn(6)), byte(r.Intn(4))}
 					if r.Chance(1, 6) {
 						x.db.Delete(key)
 					} else {
@@ -914,11 +971,38 @@ func runC09(c lib.Case) []string {
 				}
 			} else {
 				x.snaps = nil
+				x.op = nil
 			}
 			x.db = nil
 			w.mu.Unlock()
 			out = append(out, "ok")
-		case "mode": // mode <i> truthful|err|hang
+		case "redeployfail": // redeployfail <i> : the operator serving <i> is deployed again, and the load fails
+			x := inst(f[1])
+			if x == nil || !x.alive || x.db == nil {
+				out = append(out, "not-alive")
+				continue
+			}
+			if x.op == nil {
+				out = append(out, "failed") // not served by a real operator: nothing to redeploy
+				continue
+			}
+			for _, d := range x.srcDocs {
+				w.store.hide(d, true)
+			}
+			res := c09Guard(func() string {
+				if err := x.op.HandleDeploy(context.Background(), x.deployReq, nil); err != nil {
+					return "failed"
+				}
+				return "deployed"
+			})
+			for _, d := range x.srcDocs {
+				w.store.hide(d, false)
+			}
+			if strings.HasPrefix(res, "panic") {
+				res = "failed"
+			}
+			out = append(out, res)
+		case "mode": // mode <i> truthful|err|hang|slow
 			x := inst(f[1])
 			if x == nil || len(f) < 3 {
 				out = append(out, "bad-op")
@@ -1077,6 +1161,7 @@ func runC09(c lib.Case) []string {
 // ---- generator ----
 
 type c09GenInst struct {
+	hosted bool
 	alive  bool
 	gen    int
 	lo, hi int
@@ -1096,9 +1181,9 @@ type c09Gen struct {
 
 func (g *c09Gen) emit(format string, a ...any) { g.ops = append(g.ops, fmt.Sprintf(format, a...)) }
 
-func (g *c09Gen) open(lo, hi, gen int, nbrs []string, from string, fromID int) int {
+func (g *c09Gen) open(lo, hi, gen int, nbrs []string, from string, fromID int, host bool) int {
 	idx := len(g.insts)
-	x := &c09GenInst{alive: true, gen: gen, lo: lo, hi: hi}
+	x := &c09GenInst{alive: true, gen: gen, lo: lo, hi: hi, hosted: host}
 	if from != "none" {
 		x.ckpts = []int{fromID}
 		for id, ws := range g.handles {
@@ -1118,7 +1203,11 @@ func (g *c09Gen) open(lo, hi, gen int, nbrs []string, from string, fromID int) i
 		}
 	}
 	g.insts = append(g.insts, x)
-	g.emit("open %d-%d gen=%d nbrs=%s from=%s", lo, hi, gen, c09Join(nbrs), from)
+	if host {
+		g.emit("open %d-%d gen=%d nbrs=%s from=%s host=op", lo, hi, gen, c09Join(nbrs), from)
+	} else {
+		g.emit("open %d-%d gen=%d nbrs=%s from=%s", lo, hi, gen, c09Join(nbrs), from)
+	}
 	return idx
 }
 
@@ -1216,6 +1305,10 @@ func (g *c09Gen) churn(steps int, gen int) {
 		}
 		i := lib.Pick(g.r, al)
 		x := g.insts[i]
+		if x.hosted && g.r.Chance(1, 6) {
+			g.emit("redeployfail %d", i)
+			continue
+		}
 		switch v := g.r.Intn(100); {
 		case v < 34:
 			g.write(i)
@@ -1276,6 +1369,20 @@ func c09Ranges(n int) [][2]int {
 	return [][2]int{{0, 2}, {2, 4}, {4, 6}, {6, 8}}
 }
 
+// c09Even: the ranges are the even split of 8 key groups that partitioning.NewKeySpace gives an operator assembly
+func c09Even(rs [][2]int) bool {
+	n := len(rs)
+	if n == 0 || 8%n != 0 {
+		return false
+	}
+	for k, r := range rs {
+		if r[0] != k*8/n || r[1] != (k+1)*8/n {
+			return false
+		}
+	}
+	return true
+}
+
 func (g *c09Gen) nbrsOf(rs [][2]int, k int) []string {
 	var out []string
 	for j, r := range rs {
@@ -1318,6 +1425,11 @@ func (g *c09Gen) newestComplete(gen int) (int, []int) {
 func genC09(r *lib.Rng, tier string) lib.Case {
 	g := &c09Gen{r: r, nextID: 1, handles: map[int][]int{}}
 	header := fmt.Sprintf("M C09 mem=%d l0=%d", lib.Pick(r, []int{120, 160, 240}), lib.Pick(r, []int{1, 2, 2, 3}))
+	// some cases run on a directory store with real operator.Operators serving part of the instances
+	local := r.Chance(1, 4)
+	if local {
+		header += " fs=local"
+	}
 	gens := r.Range(1, 3)
 	if tier == "thorough" {
 		gens = r.Range(1, 4)
@@ -1326,7 +1438,7 @@ func genC09(r *lib.Rng, tier string) lib.Case {
 	n := lib.Pick(r, []int{1, 1, 2})
 	rs := c09Ranges(n)
 	for k, rg := range rs {
-		g.open(rg[0], rg[1], 0, g.nbrsOf(rs, k), "none", 0)
+		g.open(rg[0], rg[1], 0, g.nbrsOf(rs, k), "none", 0, false)
 	}
 	for gen := 0; gen < gens; gen++ {
 		for _, i := range g.alive() {
@@ -1346,6 +1458,11 @@ func genC09(r *lib.Rng, tier string) lib.Case {
 			break
 		}
 		inProcess := r.Chance(1, 4)
+		for _, i := range g.alive() {
+			if g.insts[i].hosted {
+				inProcess = false // an operator keeps its database; only whole processes of operators go away here
+			}
+		}
 		for _, i := range g.alive() {
 			g.insts[i].alive = false
 			if inProcess {
@@ -1374,7 +1491,8 @@ func genC09(r *lib.Rng, tier string) lib.Case {
 					src = append(src, strconv.Itoa(wi))
 				}
 			}
-			g.open(rg[0], rg[1], gen+1, g.nbrsOf(nrs, k), fmt.Sprintf("%s:%d", strings.Join(src, "+"), id), id)
+			host := local && (m == 1 || m == 2 || m == 4) && m == len(nrs) && c09Even(nrs) && r.Chance(1, 2)
+			g.open(rg[0], rg[1], gen+1, g.nbrsOf(nrs, k), fmt.Sprintf("%s:%d", strings.Join(src, "+"), id), id, host)
 			if r.Chance(1, 3) {
 				g.observe()
 			}
@@ -1393,8 +1511,30 @@ func genC09(r *lib.Rng, tier string) lib.Case {
 	return lib.Case{Header: header, Ops: g.ops}
 }
 
-func c09Fixed() []lib.Case {
+func c09Fixed(tier string) []lib.Case {
+	cases := c09FixedAll()
+	if tier == "thorough" {
+		// a neighbour that needs the table answers only after 6.5 s: with the unchanged code the cleanup waits and
+		// keeps the file (any deadline in ExclusivelyOwnsTable shorter than that turns the silence into a "no")
+		cases = append(cases, lib.Case{Header: "M C09 mem=120 l0=1", Tags: []string{"slow-neighbour"}, Ops: []string{
+			"open 0-8 gen=0 nbrs=- from=none", "write 0 12 7 0-7", "ckpt 0 1", "crash 0",
+			"open 0-4 gen=1 nbrs=4-8 from=0:1", "open 4-8 gen=1 nbrs=0-4 from=0:1",
+			"write 1 14 8 0-3", "write 1 14 9 0-3", "ckpt 1 2", "ckpt 2 2", "jobdrop 1", "retain 1 2", "mode 2 slow",
+			"gc", "files", "missing"}})
+	}
+	return cases
+}
+
+func c09FixedAll() []lib.Case {
 	return []lib.Case{
+		// a real operator.Operator serves instance 2; its redeploy fails (the checkpoints document is unreadable at
+		// that moment) and the neighbour's cleanup asks it through HandleNeedsTable afterwards: it must still answer
+		// for the instance it had
+		{Header: "M C09 mem=120 l0=1 fs=local", Tags: []string{"redeploy-window"}, Ops: []string{
+			"open 0-8 gen=0 nbrs=- from=none", "write 0 12 7 0-7", "ckpt 0 1", "crash 0",
+			"open 0-4 gen=1 nbrs=4-8 from=0:1", "open 4-8 gen=1 nbrs=0-4 from=0:1 host=op", "redeployfail 2",
+			"write 1 14 8 0-3", "write 1 14 9 0-3", "ckpt 1 2", "ckpt 2 2", "jobdrop 1", "retain 1 2", "gc", "files", "missing",
+			"redeployfail 2", "retain 2 2", "gc", "missing"}},
 		// D9 (repaired): a neighbour that cannot be asked must mean keep. Instance 0 writes tables spanning all key
 		// groups and dies; 1 and 2 restore from it; 2 is unavailable when 1 has compacted the shared tables away.
 		{Header: "M C09 mem=120 l0=1", Tags: []string{"regress-D9"}, Ops: []string{
@@ -1448,7 +1588,7 @@ func propC09() *lib.Prop {
 			}
 			return 160
 		},
-		Fixed: func(string) []lib.Case { return c09Fixed() },
+		Fixed: func(tier string) []lib.Case { return c09Fixed(tier) },
 		Gen:   func(r *lib.Rng, tier string, i int) lib.Case { return genC09(r, tier) },
 		Impl:  runC09,
 		Nontrivial: func(c lib.Case, out []string) bool {
